@@ -333,4 +333,15 @@ def search(ctx):
 
 
 def replay(ctx, rec):
-    run_cases(ctx, [rec["case"]], label="replay")
+    """Re-run a replay file: a violation record (one case) or a broken-tie record (the cases it names)."""
+    recs = [rec] if "case" in rec else [t for t in rec.get("no_longer_checks", []) if isinstance(t.get("case"), dict)]
+    cases = [r["case"] for r in recs if "ops" in r["case"]]
+    if cases:
+        run_cases(ctx, cases, label="replay")
+    known = {f["id"] for f in ctx.known()}
+    wit = [r for r in load_corpus("findings.jsonl") if r["id"] in known]
+    if wit:
+        impl_last = [wfcache.run_history(r["case"], ctx.scratch)[-1] for r in wit]
+        fresh = fresh_final([r["case"] for r in wit])
+        for r, i, f in zip(wit, impl_last, fresh):
+            ctx.finding(r["id"], i != f, "replayed witness")
